@@ -250,6 +250,23 @@ def xfer_op(c: dict, **over) -> dict:
     return op
 
 
+def stale_cases(rng: random.Random, limit: int) -> list[dict]:
+    """TLC-generated histories around a stale remote index: indexed push, external deletion, indexed query / push, retry."""
+    cases = []
+    for c in _sample(tlc_generate("stale")["stale"], limit, rng):
+        first = {"op": "Transfer", "src": "cache", "dst": "remote", "req": c["r1"], "shallow": c["sh1"], "idx": True, "F": []}
+        ops = [first] + [{"op": "ExtDelete", "s": "remote", "o": o} for o in c["E"]]
+        if c["kind"] == "status":
+            ops.append({"op": "Status", "s": "remote", "ids": c["ids"], "shallow": c["shallow"], "idx": True})
+            ops.append(first)
+        else:
+            again = {"op": "Transfer", "src": "cache", "dst": "remote", "req": c["ids"], "shallow": c["shallow"], "idx": True, "F": []}
+            ops += [again, again]
+        ops.append({"op": "Status", "s": "remote", "ids": c["r1"], "shallow": False, "idx": True})
+        cases.append({"init": c["init"], "ops": ops, "kind": "stale", "useed": len(cases) % 3})
+    return cases
+
+
 def transfer_cases(gen: dict, rng: random.Random, quick: bool) -> list[dict]:
     """From every TLC-generated (init, request, mode, failing set): the faulty run followed by a
     fault-free retry, and the same with the run killed before its k-th upload for every k."""
@@ -500,6 +517,7 @@ def check_C11(run: core.Run, replay=None):
         for c in gx["push"] + gx["fetch"]:
             cases.append({"init": c["init"], "ops": [xfer_op(c)], "kind": "xfer", "useed": len(cases) % 3})
         cases += sim_cases("ObjectStore_sim_xfer.cfg", 100 if quick else 1000, 24, run.seed + 2)
+        cases += stale_cases(rng, 300 if quick else 10**9)
         run.extra["generated_cases"] = {**{k: len(v) for k, v in gen.items()}, **{k: len(v) for k, v in gx.items()}}
     traces = execute(cases, run.seed)
     return _finish(run, traces,
@@ -530,6 +548,7 @@ def check_C12(run: core.Run, replay=None):
         cases += sim_cases("ObjectStore_sim_idx.cfg", 400 if quick else 4000, 22, run.seed + 3)
         cases += sim_cases("ObjectStore_sim_status.cfg", 250 if quick else 2500, 8, run.seed + 4)
         cases += many_oids_cases(rng, 6 if quick else 40)
+        cases += stale_cases(rng, 400 if quick else 10**9)
         run.extra["generated_cases"] = {k: len(v) for k, v in gen.items()}
     traces = execute(cases, run.seed)
     return _finish(run, traces,
